@@ -45,7 +45,7 @@ def cases(tier, seed):
     for i in range(n):
         out.append({'name': 'asm-%d' % i, 'kind': 'asm',
                     'seed': [seed, 71, i]})
-    n = 14 if tier == 'quick' else 400
+    n = 28 if tier == 'quick' else 400
     for i in range(n):
         out.append({'name': 'core-%d' % i, 'kind': 'core',
                     'seed': [seed, 72, i],
